@@ -66,7 +66,7 @@ MatchS(got, exp, e, exact) ==
     /\ Bit(got[3], 1)
     /\ (exact => Bit(got[3], 0))
     /\ IF exp[1] = 0 \/ got[1] = 0 THEN exp[1] = 0 /\ got[1] = 0
-       ELSE /\ k - e <= 24 /\ e - k <= 24
+       ELSE /\ k - e <= 8 /\ e - k <= 20 /\ got[2] <= 4 /\ got[1] < 1048576 /\ got[1] > -1048576      \* keeps the products below 2^31
             /\ IF k >= e THEN got[1] * exp[2] * P2(k - e) = exp[1] * got[2]
                          ELSE got[1] * exp[2] = exp[1] * got[2] * P2(e - k)
 Match(got, exp, exact) == MatchS(got, exp, 0, exact)
